@@ -192,14 +192,14 @@ def enclosing_openers(lines, upto):
 
 def gen_cases(tier, seed):
     r = random.Random(seed)
-    nseeds = 32 if tier == 'quick' else 320
-    per_entry = 1 if tier == 'quick' else 4
+    # a case stays small (a third of the catalogue on one seed program) so that it finishes well inside the per-case
+    # watchdog on a loaded machine; the thorough tier gets its depth from 30x more seed programs and 2 sites per entry
+    nseeds = 32 if tier == 'quick' else 480
+    per_entry = 1 if tier == 'quick' else 2
     cs = []
     n = len(CATALOGUE)
     for si in range(nseeds):
-        if tier == 'thorough':
-            ents = list(range(n))
-        else:
+        if True:
             # every entry appears in >= 10 seeds; a seed carries a third of the catalogue
             ents = [e for e in range(n) if (e + si) % 3 == 0]
         cs.append({'seed': seed * 100003 + si, 'per_entry': per_entry, 'all6': si % 6 == 0, 'entries': ents, 'rot': si})
